@@ -72,7 +72,7 @@ for l in lines:
     m = re.match(r'VIOLATION property=(C\d+) ', l)
     if m:
         cur = m.group(1)
-    m2 = re.match(r'\s+rule (\S+) at (\S+): (.*)', l)
+    m2 = re.match(r'\s+rule (\S+) at (\S*): (.*)', l)
     if m2 and cur:
         fired.setdefault(cur, []).append(m2.group(3))
 errs = [l for l in lines if l.startswith('ERROR') or l.startswith('UNDECIDED') or 'NOT-ANALYSABLE' in l]
